@@ -10,6 +10,8 @@ use yuvxyb::{
 };
 
 pub const CANON_NAN: u32 = 0x7fc0_0000;
+/// light mode (Miri engine): skip physical buffer snapshots
+pub static LIGHT: std::sync::atomic::AtomicBool = std::sync::atomic::AtomicBool::new(false);
 
 #[derive(Clone, Debug, PartialEq, Eq, Hash)]
 pub struct PlaneVal {
@@ -267,6 +269,11 @@ impl Obj {
         }
     }
     pub fn phys(&self) -> Option<Phys> {
+        // Under Miri a buffer snapshot costs ~0.1 s (v_frame pads every row to 64 bytes); there
+        // Miri itself watches for writes through shared borrows, and the logical value is compared.
+        if LIGHT.load(std::sync::atomic::Ordering::Relaxed) {
+            return None;
+        }
         match self {
             Obj::Y8(y) => Some(phys_of_yuv(y)),
             Obj::Y16(y) => Some(phys_of_yuv(y)),
